@@ -50,12 +50,14 @@ var uid int
 
 func nid() string { uid++; return fmt.Sprintf("w%d", uid) }
 
-func q(s string) string { return strconv.Quote(s) }
+func q(s string) string  { return strconv.Quote(s) }
 func f(x float64) string { return strconv.FormatFloat(x, 'g', -1, 64) }
 
 func flowMod() *parserMod {
 	m := &parserMod{name: "flow"}
-	m.handler = func() datasource.PropertyHandler { return datasource.NewFlowRulesHandler(datasource.FlowRuleJsonArrayParser) }
+	m.handler = func() datasource.PropertyHandler {
+		return datasource.NewFlowRulesHandler(datasource.FlowRuleJsonArrayParser)
+	}
 	m.clear = func() { flow.ClearRules() }
 	canon := func(r flow.Rule) string { return fmt.Sprintf("%+v", r) }
 	m.state = func() []string {
@@ -120,7 +122,9 @@ func isolationMod() *parserMod {
 
 func systemMod() *parserMod {
 	m := &parserMod{name: "system"}
-	m.handler = func() datasource.PropertyHandler { return datasource.NewSystemRulesHandler(datasource.SystemRuleJsonArrayParser) }
+	m.handler = func() datasource.PropertyHandler {
+		return datasource.NewSystemRulesHandler(datasource.SystemRuleJsonArrayParser)
+	}
 	m.clear = func() { system.ClearRules() }
 	canon := func(r system.Rule) string { return fmt.Sprintf("%+v", r) }
 	m.state = func() []string {
